@@ -225,45 +225,41 @@ func (t *TabularGraph) GetVertex(key string, load bool) *gdbi.Vertex {
 }
 
 func (t *TabularGraph) GetEdge(key string, load bool) *gdbi.Edge {
-	src, dst, label, err := t.ParseEdge(key)
-	if err != nil {
-		return nil
-	}
 	for _, source := range t.edgeSourceOrder {
 		edgeList := t.outEdges[source]
 		for _, edge := range edgeList {
-			if edge.config.Label == label {
-				if strings.HasPrefix(src, edge.fromVertex.prefix) && strings.HasPrefix(dst, edge.toVertex.prefix) {
-					srcID := strings.TrimPrefix(src, edge.fromVertex.prefix)
-					dstID := strings.TrimPrefix(dst, edge.toVertex.prefix)
+			for _, ids := range edge.ParseID(key) {
+				srcID, dstID := ids[0], ids[1]
 
-					res, err := t.client.GetRowsByField(context.Background(),
-						edge.config.Data.Source,
-						edge.config.Data.Collection,
-						edge.config.Data.FromField, srcID)
+				res, err := t.client.GetRowsByField(context.Background(),
+					edge.config.Data.Source,
+					edge.config.Data.Collection,
+					edge.config.Data.FromField, srcID)
 
-					if err == nil {
-						var out *gdbi.Edge
-						for row := range res {
-							data := row.Data.AsMap()
-							if rowdDstStr, err := getFieldString(data, edge.config.Data.ToField); err == nil {
-								if dstID == rowdDstStr {
-									o := gdbi.Edge{
-										ID:     edge.GenID(srcID, dstID), //edge.prefix + row.Id,
-										To:     edge.config.To + dstID,
-										From:   edge.config.From + srcID,
-										Label:  edge.config.Label,
-										Data:   row.Data.AsMap(),
-										Loaded: true,
-									}
-									out = &o
+				if err == nil {
+					var out *gdbi.Edge
+					for row := range res {
+						data := row.Data.AsMap()
+						if rowdDstStr, err := getFieldString(data, edge.config.Data.ToField); err == nil {
+							if dstID == rowdDstStr {
+								o := gdbi.Edge{
+									ID:     edge.GenID(srcID, dstID), //edge.prefix + row.Id,
+									To:     edge.config.To + dstID,
+									From:   edge.config.From + srcID,
+									Label:  edge.config.Label,
+									Data:   row.Data.AsMap(),
+									Loaded: true,
 								}
+								out = &o
 							}
 						}
+					}
+					if out != nil {
 						return out
 					}
-					log.Errorf("Row Error: %s", err)
+					continue //another link table may be mapped with the same label and vertex types
 				}
+				log.Errorf("Row Error: %s", err)
 			}
 		}
 	}
